@@ -60,6 +60,8 @@ class World:
         self.fds = {}            # fake fd -> VHandle
         self.iscsi_targets = {}  # (portal, target, lun) -> LU ; or key "*"
         self.iscsi_contexts = []
+        self.iscsi_logins = {}
+        self.sense_buf = None
         self.armed = []          # faults armed for the next command
         self.fired = {}          # fault kind -> count
         self.hostname = "simhost"
@@ -159,7 +161,9 @@ class World:
             if f["kind"] in kinds and f.get("thread") in (None, self.current_thread):
                 if f.get("opcode") is not None and (cdb is None or not len(cdb) or cdb[0] != f["opcode"]):
                     continue
-                if not f.get("sticky"):
+                if f.get("count", 1) > 1:
+                    f["count"] -= 1              # e.g. the next three opens are refused
+                elif not f.get("sticky"):
                     del self.armed[i]
                 self.fire(f["kind"] + ("_sticky" if f.get("sticky") else ""))
                 return f
@@ -485,6 +489,11 @@ def make_sgio():
             W.deliveries[-1]["binding_data_in_obj"] = data_in
             W.deliveries[-1]["binding_data_out_obj"] = data_out
         if err is not None:
+            if W.flags.pop("replug_when_ioctl_fails", False):
+                # the node is replaced while the command is in flight: the ioctl fails AND a new node is at the path afterwards
+                real = W.resolve(h.name)
+                if real in W.nodes:
+                    W.replug(real)
             raise err
         if status == 0x00:
             n = min(len(datain), in_len)
@@ -499,6 +508,12 @@ def make_sgio():
             if n:
                 memoryview(data_in)[:n] = datain[:n]
             W.deliveries[-1]["handed"] = bytes(sense[:max_sense_data_length])
+            if W.flags.get("reuse_sense_buffer"):
+                # a binding (or application) that keeps ONE sense buffer and overwrites it with every failure
+                if W.sense_buf is None:
+                    W.sense_buf = bytearray()
+                W.sense_buf[:] = sense[:max_sense_data_length]
+                raise CheckConditionError(W.sense_buf)
             raise CheckConditionError(bytes(sense[:max_sense_data_length]))
         raise UnspecifiedError()
 
@@ -527,7 +542,7 @@ def make_iscsi():
             self.cdb = bytes(cdb)
             self.direction = direction
             self.xferlen = xferlen
-            self.status = None
+            self.status = 0          # like the zero-initialised task structure of the real binding: reads as GOOD until the command completed
             self._sense = None
 
         @property
@@ -585,6 +600,10 @@ def make_iscsi():
                 raise RuntimeError("iscsi connect failed: no such target %r" % (key,))
             self.connects += 1
             self.connected = key
+            WORLD.iscsi_logins[key] = WORLD.iscsi_logins.get(key, 0) + 1
+            if WORLD.iscsi_logins[key] > 1 and WORLD.flags.get("ua_on_relogin"):
+                # a new I_T nexus after an earlier one: the logical unit establishes a unit attention condition for it
+                lu.unit_attention = (6, 0x29, 0x07)
 
         def disconnect(self):
             WORLD.ev("iscsi.disconnect", cid=self.cid, was_connected=self.connected is not None)
@@ -615,6 +634,11 @@ def make_iscsi():
             task.status = status
             if status == 0x02 and sense is not None:
                 task._sense = bytearray(sense) if WORLD.flags.get("iscsi_sense_bytearray") else bytes(sense)
+                if WORLD.flags.get("reuse_sense_buffer"):
+                    if WORLD.sense_buf is None:
+                        WORLD.sense_buf = bytearray()
+                    WORLD.sense_buf[:] = sense
+                    task._sense = WORLD.sense_buf
             if datain and data_in is not None:
                 n = min(len(datain), len(data_in), task.xferlen)
                 if n:
